@@ -114,8 +114,8 @@ structure WF (d : Dec) : Prop where
 theorem WF_init (w : Nat) (hw : w ≤ 32) (bs : List UInt8) : WF (Dec.init w bs) :=
   ⟨hw, fun h => by simp [Dec.init] at h, fun _ => by simp [Dec.init]⟩
 
-theorem future_init (w : Nat) (bs : List UInt8) : future (Dec.init w bs) = allValues w bs := by
-  simp [future, Dec.init, groupsThen]
+theorem future_init (w : Nat) (hw : w ≤ 32) (bs : List UInt8) : future (Dec.init w bs) = allValues w bs := by
+  simp [future, Dec.init, groupsThen, maxWidth, hw]
 
 theorem WF.bp_nil {d : Dec} (hwf : WF d) (h0 : d.runRemaining = 0) : d.bp = [] := by
   by_cases hr : d.inRle = true
@@ -550,7 +550,7 @@ theorem runOps_eq_cursor (ops : List Op) : ∀ (d : Dec), WF d → runOps d ops 
 theorem decodeAll_eq (w : Nat) (hw : w ≤ 32) (bs : List UInt8) (n : Nat) :
     decodeAll w bs n = (allValues w bs).take n := by
   unfold decodeAll
-  rw [(getBatch_spec _ n (WF_init w hw bs)).1, future_init]
+  rw [(getBatch_spec _ n (WF_init w hw bs)).1, future_init w hw]
 
 /-- the cursor does not see beyond what the history asks for -/
 theorem cursorOps_take (ops : List Op) : ∀ (l : List Nat) (n : Nat), demand ops ≤ n →
